@@ -238,7 +238,7 @@ def bodyStmts (cfg : Cfg) (sub : Nat → Nat → Bool) (n : Nat) : List Stmt →
 end PS
 
 /-- what the code does today (the correspondence check is what certifies these values) -/
-def Current.cfg : Cfg := { loopElsePropagates := true, withNested := false }
+def Current.cfg : Cfg := { loopElsePropagates := true, withNested := true }
 
 /-- before the `fix:` commit for the loop-else clause -/
 def Cfg.preFix : Cfg := { loopElsePropagates := false, withNested := false }
